@@ -1821,8 +1821,21 @@ insert_list:
     }
     int waitq::resume_all(int error_number)
     {
+        // Wake the threads that are waiting now, and only them: a thread woken
+        // here may run on another vCPU and wait again before we are done; if
+        // the loop went on until the queue is empty, such waiters and this
+        // call could chase each other for ever.
+        size_t n = 0;
+        {
+            auto lst = (thread_list*)&q;
+            SCOPED_LOCK(lst->lock);
+            if (auto head = lst->node) {
+                auto th = head;
+                do { ++n; th = th->next(); } while (th != head);
+            }
+        }
         int r = 0;
-        while (resume_one(error_number) != 0) r++;
+        while (n-- && resume_one(error_number) != 0) r++;
         return r;
         // auto lst = (thread_list*)&q;
         // return thread_list_interrupt(lst, error_number);
